@@ -154,6 +154,20 @@ func evalC04(c c04Case, o *Obs) error {
 		}
 		// a neutered key handed out earlier may be changed or erased by its owner; later Neuter() calls are unaffected
 		n.SetNet(nets[(ni+1)%len(nets)].Params)
+		if step == 0 && r.Priv != nil {
+			// ... nor may re-netting a private key: a fresh master on the original network is what it was
+			if k2, err := hdkeychain.NewMaster(c.Seed, nets[c.Net].Params); err == nil {
+				k2.SetNet(nets[(ni+2)%len(nets)].Params)
+				if m2, err := hdkeychain.NewMaster(c.Seed, nets[c.Net].Params); err == nil {
+					if c.SetNet >= 0 {
+						m2.SetNet(nets[c.SetNet].Params)
+					}
+					if want := r.String(); m2.String() != want {
+						return fmt.Errorf("%s: after SetNet on another master of the same network, NewMaster of the same seed serialises as %s, BIP32 gives %s", where, m2.String(), want)
+					}
+				}
+			}
+		}
 		n.Zero()
 		if n2, err := k.Neuter(); err != nil {
 			return fmt.Errorf("%s: second Neuter failed: %v", where, err)
